@@ -155,11 +155,12 @@ theorem extendState_WF (this other : BMap BAcct) (hw : WF this) : WF (extendStat
 theorem transition_wd (s o : Status) : (s.transition o).wasDestroyed = (s.wasDestroyed || o.wasDestroyed) := by
   cases s <;> cases o <;> rfl
 
-/-- the extended bundle describes the step from the first bundle's pre-state to the second bundle's post-state -/
-theorem extend_bundleOK (b1 b2 : BState) (p0 r1 r2 : Plain) (h1 : BundleOK b1.state p0 r1)
-    (h2 : BundleOK b2.state r1 r2) (hwi : WipeInv b2) : BundleOK (extend b1 b2).state p0 r2 := by
-  have hd := extendReverts_drained b1.state b2.reverts h1.1
-  rw [extend_state_eq]
+/-- `extend_state` of the first bundle's state — possibly with the storages of addresses that have a wiping revert
+in the second bundle drained — by the second bundle's state describes the step from the first bundle's pre-state
+to the second bundle's post-state -/
+theorem extState_bundleOK (b1 b2 : BState) (p0 r1 r2 : Plain) (h1 : BundleOK b1.state p0 r1)
+    (h2 : BundleOK b2.state r1 r2) (hwi : WipeInv b2) (st : BMap BAcct) (hd : Drained b1.state st (Wiped b2.reverts)) :
+    BundleOK (extendState st b2.state) p0 r2 := by
   refine ⟨extendState_WF _ _ hd.1, fun a => ?_⟩
   rw [extendState_get _ _ h2.1]
   have hb1 := h1.2 a
@@ -168,7 +169,7 @@ theorem extend_bundleOK (b1 b2 : BState) (p0 r1 r2 : Plain) (h1 : BundleOK b1.st
   | none =>
     rw [ho] at hb2
     simp only [Option.elim]
-    have hst : (extendReverts b1.state b2.reverts).1.get a = b1.state.get a := by
+    have hst : st.get a = b1.state.get a := by
       cases hd.2 a with
       | inl h => exact h
       | inr h =>
@@ -184,7 +185,7 @@ theorem extend_bundleOK (b1 b2 : BState) (p0 r1 r2 : Plain) (h1 : BundleOK b1.st
     rw [ho] at hb2
     obtain ⟨hoi, hoo, hos⟩ := hb2
     simp only [Option.elim, extF]
-    cases hst : (extendReverts b1.state b2.reverts).1.get a with
+    cases hst : st.get a with
     | none =>
       have hb : b1.state.get a = none := by
         cases hd.2 a with
@@ -235,6 +236,17 @@ theorem extend_bundleOK (b1 b2 : BState) (p0 r1 r2 : Plain) (h1 : BundleOK b1.st
           exact (storageInv_nd _ _ _ (by simp only [transition_wd, htwd, howd, Bool.or_false])).mpr
             (st_extend_nd _ _ _ _ _ htn hon)
 
+/-- the extended bundle describes the step from the first bundle's pre-state to the second bundle's post-state -/
+theorem extend_bundleOK (b1 b2 : BState) (p0 r1 r2 : Plain) (h1 : BundleOK b1.state p0 r1)
+    (h2 : BundleOK b2.state r1 r2) (hwi : WipeInv b2) : BundleOK (extend b1 b2).state p0 r2 := by
+  rw [extend_state_eq]
+  exact extState_bundleOK b1 b2 p0 r1 r2 h1 h2 hwi _ (extendReverts_drained b1.state b2.reverts h1.1)
+
+/-- `prepend_state` (newer bundle `b2` prepended with the older `b1`): the same state without draining -/
+theorem prepend_bundleOK (b1 b2 : BState) (p0 r1 r2 : Plain) (h1 : BundleOK b1.state p0 r1)
+    (h2 : BundleOK b2.state r1 r2) (hwi : WipeInv b2) : BundleOK (prependState b2 b1).state p0 r2 :=
+  extState_bundleOK b1 b2 p0 r1 r2 h1 h2 hwi _ (Drained.refl b1.state _ h1.1)
+
 /-- post-state half of `Spec.ExtendStatement` -/
 def ExtendPostStatement : Prop :=
   ∀ (db db2 : BMap Info) (sc : Bool) (p0 : Plain) (h1 h2 : List Group) (known : Bool),
@@ -265,6 +277,42 @@ theorem extend_post_proof : ExtendPostStatement := by
       exact changeset_of_bundleOK _ known p0 r2
         (extend_bundleOK s1.bundle s2.bundle p0 r1 r2 (bundleOK_of_inv s1 p0 r1 i1 t1)
           (bundleOK_of_inv s2 r1 r2 i2 t2) i2.wipe)
+    · refine ⟨l1, [], q1, fun s1' r1' h hdb' => ?_⟩
+      rw [hl1] at h; injection h with h; injection h with ha hb; subst ha; subst hb
+      exact absurd hdb' hdb2
+
+/-- post-state of `prepend_state`: the newer bundle `B` (second half), prepended with the older `A`, describes
+the step from A's pre-state to B's post-state -/
+def PrependPostStatement : Prop :=
+  ∀ (db db2 : BMap Info) (sc : Bool) (p0 : Plain) (h1 h2 : List Group) (known : Bool),
+    dbMatches db p0 → plainWF p0 → reachHistory sc p0 (h1 ++ h2) = true →
+    ∃ l1 l2, runHistory { db := db, sc := sc } p0 h1 = some l1 ∧
+      ∀ s1 r1, l1.getLast? = some (s1, r1) → dbMatches db2 r1 →
+        runHistory { db := db2, sc := sc } r1 h2 = some l2 ∧
+        ∀ s2 r2, l2.getLast? = some (s2, r2) →
+          PlainEq (applyChangeset (toPlainState (prependState s2.bundle s1.bundle) known) p0) r2 ∧
+          (prependState s2.bundle s1.bundle).reverts = s1.bundle.reverts
+
+theorem prepend_post_proof : PrependPostStatement := by
+  intro db db2 sc p0 h1 h2 known hdb hwf hr
+  rw [reachHistory_append, Bool.and_eq_true] at hr
+  obtain ⟨l1, q1, _, q3⟩ := runHistory_inv sc p0 h1 { db := db, sc := sc } p0 (init_inv db sc p0 hdb hwf) rfl hr.1
+  cases hl1 : l1.getLast? with
+  | none => exact ⟨l1, [], q1, fun s1 r1 h => by rw [hl1] at h; cases h⟩
+  | some x =>
+    obtain ⟨s1, r1⟩ := x
+    obtain ⟨i1, t1, e1, _⟩ := q3 s1 r1 hl1
+    by_cases hdb2 : dbMatches db2 r1
+    · have hr2 : reachHistory sc r1 h2 = true := by rw [e1]; exact hr.2
+      obtain ⟨l2, w1, _, w3⟩ := runHistory_inv sc r1 h2 { db := db2, sc := sc } r1
+        (init_inv db2 sc r1 hdb2 (plainWF_of_inv s1 p0 r1 r1 i1)) rfl hr2
+      refine ⟨l1, l2, q1, fun s1' r1' h _ => ?_⟩
+      rw [hl1] at h; injection h with h; injection h with ha hb; subst ha; subst hb
+      refine ⟨w1, fun s2 r2 hl2 => ?_⟩
+      obtain ⟨i2, t2, _, _⟩ := w3 s2 r2 hl2
+      exact ⟨changeset_of_bundleOK _ known p0 r2
+        (prepend_bundleOK s1.bundle s2.bundle p0 r1 r2 (bundleOK_of_inv s1 p0 r1 i1 t1)
+          (bundleOK_of_inv s2 r1 r2 i2 t2) i2.wipe), rfl⟩
     · refine ⟨l1, [], q1, fun s1' r1' h hdb' => ?_⟩
       rw [hl1] at h; injection h with h; injection h with ha hb; subst ha; subst hb
       exact absurd hdb' hdb2
@@ -481,14 +529,6 @@ theorem modRev_sem (t? : Option BAcct) (r : ARevert) (ms : Status) (p0s r1s : Na
         cases hg : r.storage.get k with
         | some v => rw [hg] at hk'; cases hk'
         | none => exact g5 hwp k hg
-
-/-- region outside finding F4 (decidable): no storage-wiping revert of the second bundle lists as `Destroyed`
-a slot that the first bundle's account of the same address holds -/
-def extendOk (b1 b2 : BState) : Bool :=
-  b2.reverts.all (fun blk => blk.all (fun e => !e.2.wipe ||
-    match b1.state.get e.1 with
-    | none => true
-    | some ta => e.2.storage.all (fun s => s.2 != RevSlot.destroyed || (ta.storage.get s.1).isNone)))
 
 theorem extendOk_spec (b1 b2 : BState) (h : extendOk b1 b2 = true) (blk : BMap ARevert) (hblk : blk ∈ b2.reverts)
     (a : Nat) (r : ARevert) (hm : (a, r) ∈ blk) (hw : r.wipe = true) (ta : BAcct) (hta : b1.state.get a = some ta)
